@@ -617,8 +617,9 @@ type GhostFunc struct {
 }
 
 type GhostVar struct {
-	Name string
-	Sort string // SMT sort
+	Name     string
+	TypeName string // for pointer-typed ghost variables ("*stun.Message"): the Go type its value has in contracts
+	Sort     string // SMT sort
 }
 
 type Lemma struct {
@@ -642,6 +643,7 @@ type ContractSet struct {
 	Lemmas  []*Lemma
 	Axioms  []*Axiom
 	Signals map[string]bool // "pkg.Type.field" channels used as close-only signals
+	ChanInvs map[string]*Clause // "pkg.Type.field" -> invariant over `v` of every value sent on that channel
 	Order   []string
 }
 
@@ -665,7 +667,7 @@ func parseTags(s string) (props []string, label string, rest string) {
 }
 
 var clauseKW = map[string]bool{"requires": true, "ensures": true, "assigns": true, "pure": true, "trusted": true, "loop": true,
-	"at-call": true, "func": true, "spec": true, "ghost": true, "lemma": true, "axiom": true, "iterated": true, "signal": true, "fresh": true, "cover": true, "nobody": true, "lockonly": true, "blocking": true, "ghost-set": true, "moninv": true, "opaque": true, "iterates": true}
+	"at-call": true, "func": true, "spec": true, "ghost": true, "lemma": true, "axiom": true, "iterated": true, "signal": true, "fresh": true, "cover": true, "nobody": true, "lockonly": true, "blocking": true, "chaninv": true, "ghost-set": true, "moninv": true, "opaque": true, "iterates": true}
 
 // LoadContractFile parses one contract file. pkgPath qualifies short function keys ("" for spec files,
 // whose keys are already fully qualified).
@@ -795,15 +797,36 @@ func (cs *ContractSet) LoadContractText(text, path, pkgPath string, external boo
 				case "map[int]map[int]int":
 					sort = "(Array Int (Array Int Int))"
 				default:
-					return fail(fmt.Errorf("unknown ghost var type %q", strings.Join(f[2:], " ")))
+					if !strings.HasPrefix(f[2], "*") {
+						return fail(fmt.Errorf("unknown ghost var type %q", strings.Join(f[2:], " ")))
+					}
 				}
-				cs.GVars[f[1]] = &GhostVar{Name: f[1], Sort: sort}
+				gv := &GhostVar{Name: f[1], Sort: sort}
+				if strings.HasPrefix(f[2], "*") {
+					gv.TypeName = f[2]
+				}
+				cs.GVars[f[1]] = gv
 			} else {
 				return fail(fmt.Errorf("bad ghost declaration"))
 			}
 			cur = nil
 		case "signal":
 			cs.Signals[rest] = true
+			cur = nil
+		case "chaninv":
+			// chaninv pkg.Type.field: expr over v   (checked at every send, assumed at every receive)
+			i := strings.Index(rest, ":")
+			if i < 0 {
+				return fail(fmt.Errorf("chaninv <pkg.Type.field>: <expr over v>"))
+			}
+			e, err := ParseExpr(strings.TrimSpace(rest[i+1:]))
+			if err != nil {
+				return fail(err)
+			}
+			if cs.ChanInvs == nil {
+				cs.ChanInvs = map[string]*Clause{}
+			}
+			cs.ChanInvs[strings.TrimSpace(rest[:i])] = &Clause{E: e, Src: strings.TrimSpace(rest[i+1:]), Where: where, Label: "chaninv"}
 			cur = nil
 		case "axiom", "lemma":
 			props, label, r := parseTags(rest)
